@@ -24,6 +24,11 @@ func VPH_C08_headers() {
 	hasReal, hasXFF, hasClient, hasTLS := vp.Bool("has-x-real-ip"), vp.Bool("has-xff"), vp.Bool("has-client-ip-header"), vp.Bool("has-tls-header")
 	hasProto, hasPort, hasHost, hasFwd := false, false, false, false
 	cfgTLSHeader := vp.Bool("cfg-tls-header")
+	if vp.Param("RICH") == 4 {
+		// quick bound plus a forged Forwarded header
+		rich = false
+		hasFwd = vp.Bool("has-forwarded")
+	}
 	if rich {
 		hasProto, hasPort, hasHost, hasFwd = vp.Bool("has-xf-proto"), vp.Bool("has-xf-port"), vp.Bool("has-xf-host"), vp.Bool("has-forwarded")
 		if vp.Param("RICH") == 2 {
